@@ -393,7 +393,8 @@ struct Gen {
 		if (story) { if (plan_density < 2) plan_density = 2; if (hostility > 30) hostility = 30; }
 
 		int len;
-		{ int r = static_cast<int>(rng.below(100)); len = r < 55 ? rng.range(1, 8) : r < 88 ? rng.range(9, 20) : rng.range(21, prof.max_ops > 21 ? prof.max_ops : 21); }
+		// many short histories, a tail of long ones (counters that must wrap, free lists in one particular shape)
+		{ int r = static_cast<int>(rng.below(100)); len = r < 55 ? rng.range(1, 8) : r < 85 ? rng.range(9, 20) : r < 97 ? rng.range(21, 48) : rng.range(49, prof.max_ops > 49 ? prof.max_ops : 49); }
 
 		// weighted op table for this run
 		std::vector<int> table;
